@@ -266,6 +266,13 @@ func (s *c03State) hostileRound(r *vlib.Rand) {
 		if r.Intn(2) == 0 {
 			s.hostile(pr.First+(pr.N+63)/64*64-1, "padding-bit-frame")
 		}
+		// frame numbers that agree with a frame of the pool in their low 32 (16, 8) bits only
+		in := pr.First + r.U64()%pr.N
+		s.hostile(in+uint64(1+r.Intn(4))<<32, "pool-frame-plus-multiple-of-2^32")
+		s.hostile(in|uint64(1)<<uint(33+r.Intn(19)), "pool-frame-with-a-high-bit-set")
+		if r.Intn(2) == 0 {
+			s.hostile(in+uint64(1+r.Intn(4))<<16, "pool-frame-plus-multiple-of-2^16")
+		}
 	}
 	for _, rg := range s.cfg.Regions {
 		if rg.Type != 1 {
